@@ -233,7 +233,11 @@ func TestVerifMsg(t *testing.T) {
 					continue
 				}
 				size += 4 + (l+3)/4*4
-				v.Ops = append(v.Ops, msgOp{Op: "add", T: r.Intn(0x10000), Data: ints(randBytes(r, l))})
+				typ := r.Intn(0x10000)
+				if r.Intn(40) == 0 {
+					typ = 0x8020 // the legacy alias of XOR-MAPPED-ADDRESS, added as it is
+				}
+				v.Ops = append(v.Ops, msgOp{Op: "add", T: typ, Data: ints(randBytes(r, l))})
 			case x < 10:
 				// typed setters (their wire formats are C06's business; here: the struct stays equal to the wire)
 				switch r.Intn(5) {
